@@ -12,7 +12,9 @@ LEVEL = "exploration"
 RULE = ("Hypothesis-generated libraries inside the stated domain (1-5 cells, acyclic references by pointer / by name / dangling, "
         "tags 0..32767, coordinates on the precision grid plus a sub-grid jitter <= 0.3, magnitudes up to 2^31-5000 grid units, "
         "units from {1e-6/1e-9, 1e-6/5e-9, 1e-9/1e-12, 1/1e-3, 1e-3/1e-6}): polygons of six families, simple flexpaths "
-        "(1-3 elements, flush/round/half-width/extended ends, either width-scaling state), non-simple flex and robust paths, "
+        "(1-3 elements, flush/round/half-width/extended ends, either width-scaling state; a third of those with a spine in general "
+        "position carry constant element offsets, their expected centre line being my own mitred offset polyline; one case in "
+        "twenty adds a zigzag simple path of 8189..20000 points, i.e. several XY records), non-simple flex and robust paths, "
         "simple robust paths, labels with every anchor/rotation/magnification/reflection, references with rotation x "
         "magnification x reflection and lattices that are / are not AREF-representable (both vector orders), every "
         "repetition kind on every element kind, GDSII properties with odd/even value lengths and attributes to 65535; "
@@ -37,6 +39,22 @@ def case_strategy(draw, thorough=False):
         for p in c["paths"]:
             if p["kind"] == "rp" and p["simple"] and draw(st.integers(0, 2)) == 0:
                 p["prescale"] = draw(st.sampled_from([2.0, 0.5, 3.0]))
+    # simple flexible paths whose elements are offset from the spine: the saved centre line is the spine displaced sideways with
+    # mitred corners (expected from my own line intersections, gdsmodel.offset_polyline), only for spines in general position
+    # (consecutive directions between 6 and 174 degrees apart, where the intersection is well conditioned)
+    for c in lib["cells"]:
+        for p in c["paths"]:
+            if p["kind"] == "fp" and p["simple"] and gm.general_position(p["spine"]) and draw(st.integers(0, 2)) == 0:
+                for e in p["els"]:
+                    e["off"] = float(draw(st.sampled_from([-12, -5, 3, 8, 20])))
+    # occasionally a simple path around the 8190-vertex limit of one XY record (multi-record centre lines): a zigzag
+    if draw(st.integers(0, 19)) == 0:
+        npt = draw(st.sampled_from([8189, 8190, 8191, 8192, 8193, 16381, 20000]))
+        x0, y0 = draw(st.integers(-500, 500)), draw(st.integers(-500, 500))
+        lib["cells"][0]["paths"].append({"kind": "fp", "simple": True, "scale_width": True, "tol": 0.01,
+                                         "spine": [[float(x0 + 5 * i), float(y0 + (7 if i % 2 else 0))] for i in range(npt)],
+                                         "els": [{"tag": [6, 6], "w": 2.0, "off": 0.0, "end": "flush", "ext": [0.0, 0.0], "join": 0}],
+                                         "rep": None, "props": []})
     # occasionally a very large array (COLROW near the 16-bit boundary) on an on-grid lattice
     if draw(st.integers(0, 9)) == 0:
         for c in lib["cells"]:
